@@ -4,28 +4,40 @@ package main
 //
 // Three parts:
 //
-//  1. the WORKLOAD (c17RunWorkload): goroutines x GOMAXPROCS x modes, every result compared with the
-//     result of the same call run alone on fresh instances.  It runs in-process (no race detector) and,
-//     as `vh c17worker <seed> <goroutines> <gomaxprocs> <mode>`, inside a binary built with `go build -race`
-//     whose path is given by the environment variable VERIF_VH_RACE.
+//  1. the WORKLOADS, each in a worker process of its own (`vh c17worker <seed> <goroutines> <gomaxprocs> <mode> <a> <b>`),
+//     once in the plain build and once in a binary built with `go build -race` whose path is given by the environment
+//     variable VERIF_VH_RACE.  A runtime `fatal error: concurrent map read and map write` ends only the worker and is
+//     reported as a failure (C17/process-crash/...), a race report as C17/data-race/....
+//     - c17RunWorkload: goroutines x GOMAXPROCS x modes (separate | fresh | shared | shared-cold | conversions), every
+//     result compared with the result of the same call run alone on fresh instances.  The documents to unmarshal
+//     carry their keys in every accepted spelling (c17Spell: snake_case, mixed case, separators, unknown keys) and, for
+//     the numeric destination types, numbers in every source form (c17NumSource), so that the lazily filled
+//     structures and the package-level builder singletons are exercised by many goroutines at once.
+//     - c17CacheStorm: all goroutines ask one session for the same cold types at the same moment.
+//     - c17SessionStorm: every shareable session topology (one shared session, children made after / while the
+//     parent is used, parent-child-grandchild chains) with a barrier per step, new key spellings in every step,
+//     record types in every other round.
 //  2. the SCENARIOS on the type caches (iterator.Session.GetIteratorForType /
-//     builder.Session.GetBuilderGeneratorForType): sequences and small concurrent groups of calls on one
-//     shared session, observed as (ok | error | never returns) plus whether the cache handed out its
-//     placeholder closure or the generated function.  The same scenarios are evaluated by the Coq model
-//     (CE.Model.Cache): sequential scenarios must agree exactly, concurrent ones must be among the
+//     builder.Session.GetBuilderGeneratorForType), in a process of their own too (`vh c17scenarios`): sequences and
+//     small concurrent groups of calls on one shared session, observed as (ok | error | never returns) plus whether the
+//     cache handed out its placeholder closure or the generated function.  The same scenarios are evaluated by the Coq
+//     model (CE.Model.Cache): sequential scenarios must agree exactly, concurrent ones must be among the
 //     outcomes the model reaches under some schedule.
 //  3. the oracle: every difference from the run-alone result, every data race report, every call that
-//     never returns although it returns when run alone is a failure.
+//     never returns although it returns when run alone, every worker process that dies is a failure.
 
 import (
 	"bytes"
 	"encoding/hex"
 	"encoding/json"
 	"fmt"
+	"io/ioutil"
+	"math"
 	"math/big"
 	"math/rand"
 	"os"
 	"os/exec"
+	"path/filepath"
 	"reflect"
 	"runtime"
 	"sort"
@@ -35,11 +47,13 @@ import (
 	"sync/atomic"
 	"time"
 
+	"github.com/cockroachdb/apd/v2"
+	compact_float "github.com/kstenerud/go-compact-float"
 	"github.com/kstenerud/go-concise-encoding/builder"
 	"github.com/kstenerud/go-concise-encoding/ce"
+	"github.com/kstenerud/go-concise-encoding/ce/events"
 	"github.com/kstenerud/go-concise-encoding/configuration"
 	"github.com/kstenerud/go-concise-encoding/iterator"
-	describe "github.com/kstenerud/go-describe"
 )
 
 func init() {
@@ -47,6 +61,10 @@ func init() {
 	// hidden sub-command: the concurrent workload as a process of its own (so that it can be a -race build)
 	if len(os.Args) >= 2 && os.Args[1] == "c17worker" {
 		os.Exit(c17WorkerMain(os.Args[2:]))
+	}
+	// hidden sub-command: the cache scenarios (part 3 of the check) as a process of their own
+	if len(os.Args) >= 2 && os.Args[1] == "c17scenarios" {
+		os.Exit(c17ScenariosMain(os.Args[2:]))
 	}
 }
 
@@ -124,6 +142,70 @@ type C17Emb struct {
 	Eb []uint32
 }
 
+// Multi-word field names: the marshalers write them in snake_case (first_field_of_the_struct), which is neither
+// the Go name nor its normalised form (lower case, no underscores): the struct builder has to match them
+// case-insensitively. Documents for these types are also re-spelled (c17Spell) in every other accepted way.
+type c17NamedInner struct {
+	InnerCount     int
+	InnerLabelText string
+	HTTPStatusCode uint16
+}
+
+type c17Named struct {
+	FirstFieldOfTheStruct int
+	SecondFieldName       string
+	URLValueList          []int32
+	X2ScaleFactor         float64
+	NestedInnerValue      c17NamedInner
+	NestedInnerPointer    *c17NamedInner
+	ListOfInnerValues     []c17NamedInner
+	MapOfInnerValues      map[string]c17NamedInner
+	TaggedFieldValue      bool `ce:"name=custom_tag_name"`
+	BigIntegerValue       *big.Int
+	AnyKindOfValue        interface{}
+}
+
+// destinations of every numeric kind: their documents are written from event streams in which every field gets
+// its value from any numeric source form (c17ConvEvents), so that every conversion method of the package-level
+// builder singletons (globalIntBuilder, globalBigIntBuilder, globalPBigIntBuilder ...) runs in many goroutines at once
+type c17Numeric struct {
+	SmallSignedInt    int8
+	WideSignedInt     int64
+	PlainSignedInt    int
+	SmallUnsignedInt  uint8
+	WideUnsignedInt   uint64
+	SingleFloatValue  float32
+	DoubleFloatValue  float64
+	BigIntValue       big.Int
+	BigIntPointer     *big.Int
+	BigFloatValue     big.Float
+	BigFloatPointer   *big.Float
+	DecimalFloatValue compact_float.DFloat
+	BigDecimalValue   apd.Decimal
+	BigDecimalPointer *apd.Decimal
+	AnyNumericValue   interface{}
+	SomeTextValue     string
+}
+
+type c17NumericLists struct {
+	ListOfInt8     []int8
+	ListOfInt16    []int16
+	ListOfInt32    []int32
+	ListOfInt64    []int64
+	ListOfUint8    []uint8
+	ListOfUint16   []uint16
+	ListOfUint32   []uint32
+	ListOfUint64   []uint64
+	ListOfFloat32  []float32
+	ListOfFloat64  []float64
+	ListOfBigInts  []*big.Int
+	ListOfAnything []interface{}
+	ArrayOfInt16   [3]int16
+	ArrayOfFloat32 [2]float32
+}
+
+var c17ConvTypes = []reflect.Type{reflect.TypeOf(c17Numeric{}), reflect.TypeOf(c17NumericLists{})}
+
 // unsupported element kinds: the default iterator / builder generator panics on them
 type c17BadChan struct {
 	Aa int
@@ -160,7 +242,11 @@ var c17StaticTypes = []reflect.Type{
 	reflect.TypeOf(c17B{}), reflect.TypeOf(c17Wide{}), reflect.TypeOf(c17Embed{}), reflect.TypeOf(c17Inner{}),
 	reflect.TypeOf([]c17Inner{}), reflect.TypeOf(map[string]c17Inner{}), reflect.TypeOf([2][]c17List{}),
 	reflect.TypeOf([]interface{}{}), reflect.TypeOf(map[string]interface{}{}), reflect.TypeOf([]*c17A{}),
+	reflect.TypeOf(c17Named{}), reflect.TypeOf(c17NamedInner{}),
 }
+
+// words for the field names of the types made at run time
+var c17NameWords = []string{"Retry", "Count", "HTTP", "Server", "ID", "Value", "Max", "Name", "URL", "Item", "Total", "X2", "Size", "Of", "The"}
 
 var c17LeafPool = []reflect.Type{
 	reflect.TypeOf(false), reflect.TypeOf(int(0)), reflect.TypeOf(int8(0)), reflect.TypeOf(int32(0)), reflect.TypeOf(uint16(0)),
@@ -207,9 +293,18 @@ func c17DynTypes(r *rand.Rand, n int, tag string) []reflect.Type {
 		}
 		fields := []reflect.StructField{}
 		for j := 0; j < nf; j++ {
-			// the tag makes the type distinct from every type made with another tag
-			fields = append(fields, reflect.StructField{Name: fmt.Sprintf("F%c%c", 'a'+j/26, 'a'+j%26), Type: pick(),
-				Tag: reflect.StructTag(fmt.Sprintf(`c17:"%s-%d"`, tag, i))})
+			// the tag makes the type distinct from every type made with another tag; the names have several words
+			// (FabRetryCount -> key "fab_retry_count"), now and then the key is given by a ce name tag
+			name := fmt.Sprintf("F%c%c", 'a'+j/26, 'a'+j%26)
+			for w := r.Intn(4); w > 0; w-- {
+				name += c17NameWords[r.Intn(len(c17NameWords))]
+			}
+			ceTag := ""
+			if r.Intn(6) == 0 {
+				ceTag = fmt.Sprintf(` ce:"name=tagged_%c%c_key_name"`, 'a'+j/26, 'a'+j%26)
+			}
+			fields = append(fields, reflect.StructField{Name: name, Type: pick(),
+				Tag: reflect.StructTag(fmt.Sprintf(`c17:"%s-%d"%s`, tag, i, ceTag))})
 		}
 		made = append(made, reflect.StructOf(fields))
 	}
@@ -219,6 +314,20 @@ func c17DynTypes(r *rand.Rand, n int, tag string) []reflect.Type {
 // c17Fill fills rv with a random value. Maps get at most one entry (map iteration order is random in Go and
 // would make the encoded document differ between two runs of the same call); floats are never NaN.
 func c17Fill(r *rand.Rand, rv reflect.Value, depth int) {
+	switch rv.Type() {
+	case reflect.TypeOf(big.Int{}):
+		rv.Set(reflect.ValueOf(big.NewInt(r.Int63n(2000) - 1000)).Elem())
+		return
+	case reflect.TypeOf(big.Float{}):
+		rv.Set(reflect.ValueOf(big.NewFloat(float64(r.Intn(2000)-1000) / 4)).Elem())
+		return
+	case reflect.TypeOf(apd.Decimal{}):
+		rv.Set(reflect.ValueOf(apd.New(int64(r.Intn(2000)-1000), int32(r.Intn(5)-2))).Elem())
+		return
+	case reflect.TypeOf(compact_float.DFloat{}):
+		rv.Set(reflect.ValueOf(compact_float.DFloat{Coefficient: int64(r.Intn(2000) - 1000), Exponent: int32(r.Intn(7) - 3)}))
+		return
+	}
 	switch rv.Kind() {
 	case reflect.Bool:
 		rv.SetBool(r.Intn(2) == 0)
@@ -313,6 +422,369 @@ func c17Fill(r *rand.Rand, rv reflect.Value, depth int) {
 }
 
 // ---------------------------------------------------------------------------
+// Key spellings
+//
+// The struct builder accepts a key when its normalised form (lower case, '_' and ' ' removed) is the normalised
+// form of a field's name (Go name or ce name tag).  c17Spell writes a key in one of the accepted ways.
+
+const c17SpellStyles = 10
+
+func c17Normalise(key string) string {
+	return strings.Map(func(c rune) rune {
+		if c == '_' || c == ' ' {
+			return -1
+		}
+		return c
+	}, strings.ToLower(key))
+}
+
+func c17Spell(r *rand.Rand, key string, style int) string {
+	words := strings.FieldsFunc(key, func(c rune) bool { return c == '_' || c == ' ' })
+	if len(words) == 0 {
+		return key
+	}
+	title := func(w string) string { return strings.ToUpper(w[:1]) + strings.ToLower(w[1:]) }
+	titled := make([]string, len(words))
+	for i, w := range words {
+		titled[i] = title(w)
+	}
+	randomCase := func(s string) string {
+		return strings.Map(func(c rune) rune {
+			if r.Intn(2) == 0 {
+				return []rune(strings.ToUpper(string(c)))[0]
+			}
+			return []rune(strings.ToLower(string(c)))[0]
+		}, s)
+	}
+	switch style {
+	case 1: // the normalised form itself
+		return strings.ToLower(strings.Join(words, ""))
+	case 2: // snake_case (what the marshalers write by default)
+		return strings.ToLower(strings.Join(words, "_"))
+	case 3: // SCREAMING_SNAKE_CASE
+		return strings.ToUpper(strings.Join(words, "_"))
+	case 4: // camelCase
+		return strings.ToLower(words[0]) + strings.Join(titled[1:], "")
+	case 5: // PascalCase (the Go name, but for acronyms)
+		return strings.Join(titled, "")
+	case 6: // separate words
+		return strings.Join(titled, " ")
+	case 7: // any mixture of cases
+		return randomCase(strings.Join(words, ""))
+	case 8: // any mixture of cases with separators anywhere
+		sb := strings.Builder{}
+		for _, c := range randomCase(strings.Join(words, "")) {
+			if r.Intn(4) == 0 {
+				sb.WriteByte("_ "[r.Intn(2)])
+			}
+			sb.WriteRune(c)
+		}
+		if r.Intn(3) == 0 {
+			sb.WriteByte('_')
+		}
+		return sb.String()
+	case 9: // UPPER CASE
+		return strings.ToUpper(strings.Join(words, ""))
+	}
+	return key // style 0: as it was written
+}
+
+// c17KeySet: the normalised names of all fields of all struct types reachable from the given types
+func c17KeySet(types ...reflect.Type) map[string]bool {
+	keys := map[string]bool{}
+	seen := map[reflect.Type]bool{}
+	var walk func(t reflect.Type)
+	walk = func(t reflect.Type) {
+		if seen[t] {
+			return
+		}
+		seen[t] = true
+		switch t.Kind() {
+		case reflect.Ptr, reflect.Slice, reflect.Array:
+			walk(t.Elem())
+		case reflect.Map:
+			walk(t.Key())
+			walk(t.Elem())
+		case reflect.Struct:
+			for i := 0; i < t.NumField(); i++ {
+				f := t.Field(i)
+				if f.PkgPath != "" && !f.Anonymous {
+					continue
+				}
+				name := f.Name
+				for _, entry := range strings.Split(f.Tag.Get("ce"), ",") {
+					if kv := strings.Split(entry, "="); len(kv) == 2 && strings.TrimSpace(kv[0]) == "name" {
+						name = strings.TrimSpace(kv[1])
+					}
+				}
+				if !f.Anonymous {
+					keys[c17Normalise(name)] = true
+				}
+				walk(f.Type)
+			}
+		}
+	}
+	for _, t := range types {
+		walk(t)
+	}
+	return keys
+}
+
+// c17Respell rewrites every string of the stream whose normalised form is a field name (keys: c17KeySet) in the
+// given style (style < 0: another style for every key).  unknown: a key that belongs to no field is added, with
+// a value, at the start of the top-level map (the builder ignores it).  Strings that only look like a key (map
+// keys, values) are rewritten too: the expected result is always computed from the same rewritten document.
+func c17Respell(r *rand.Rand, evs []Ev, keys map[string]bool, style int, unknown bool) []Ev {
+	out := make([]Ev, 0, len(evs)+4)
+	depth := 0
+	for _, e := range evs {
+		if (e.K == "sa" || e.K == "a") && e.A == events.ArrayTypeString && keys[c17Normalise(string(e.Data))] {
+			st := style
+			if st < 0 {
+				st = r.Intn(c17SpellStyles)
+			}
+			sp := c17Spell(r, string(e.Data), st)
+			e.Data = []byte(sp)
+			if e.K == "a" {
+				e.N = uint64(len(sp))
+			}
+		}
+		out = append(out, e)
+		switch e.K {
+		case "m":
+			if depth == 0 && unknown {
+				unknown = false
+				out = append(out, Ev{K: "sa", A: events.ArrayTypeString, Data: []byte(fmt.Sprintf("no_such_field_%d", r.Intn(1000)))})
+				if r.Intn(2) == 0 {
+					out = append(out, Ev{K: "l"}, Ev{K: "pi", N: 1}, Ev{K: "m"}, Ev{K: "e"}, Ev{K: "e"})
+				} else {
+					out = append(out, Ev{K: "pi", N: uint64(r.Intn(100))})
+				}
+			}
+			depth++
+		case "l", "rec", "rt", "edge", "node":
+			depth++
+		case "e":
+			depth--
+		}
+	}
+	return out
+}
+
+// the events the iterator sends for obj (nil if it fails)
+func c17IterEvents(cfg *configuration.Configuration, obj interface{}) (evs []Ev) {
+	defer func() {
+		if r := recover(); r != nil {
+			evs = nil
+		}
+	}()
+	rec := &Recorder{}
+	iterator.NewSession(nil, cfg).NewIterator(rec).Iterate(obj)
+	return rec.Evs
+}
+
+// c17EncodeBoth: the stream as a CBE and as a CTE document (nil where the encoder rejects it)
+func c17EncodeBoth(cfg *configuration.Configuration, evs []Ev) (docB, docT []byte) {
+	enc := func(e ce.Encoder) (doc []byte) {
+		defer func() {
+			if r := recover(); r != nil {
+				doc = nil
+			}
+		}()
+		var buf bytes.Buffer
+		e.PrepareToEncode(&buf)
+		if rej, _ := playAll(e, evs); rej >= 0 {
+			return nil
+		}
+		return append([]byte{}, buf.Bytes()...)
+	}
+	return enc(ce.NewCBEEncoder(cfg)), enc(ce.NewCTEEncoder(cfg))
+}
+
+// ---------------------------------------------------------------------------
+// Numeric source forms: one event (or a short run of events) carrying a number in every form a document can have
+
+func c17NumSource(r *rand.Rand) []Ev {
+	k := uint64(r.Intn(1000) + 1)
+	bigOf := func(s string) *big.Int { b, _ := new(big.Int).SetString(s, 10); return b }
+	switch r.Intn(26) {
+	case 0, 1:
+		return []Ev{{K: "pi", N: k}}
+	case 2:
+		return []Ev{{K: "pi", N: 1<<63 + k}}
+	case 3, 4:
+		return []Ev{{K: "ni", N: k}}
+	case 5:
+		return []Ev{{K: "ni", N: 1<<63 + k}}
+	case 6, 7: // beyond 64 bits
+		b := new(big.Int).Lsh(big.NewInt(int64(k)), uint(64+r.Intn(40)))
+		if r.Intn(2) == 0 {
+			b.Neg(b)
+		}
+		return []Ev{{K: "bi", Big: b}}
+	case 8:
+		return []Ev{{K: "bi", Big: big.NewInt(int64(k))}}
+	case 9, 10, 11: // binary floats with integer values beyond 53 bits (0x1.8p+70 ...)
+		f := float64(2*k+1) * float64(uint64(1)<<uint(40+r.Intn(23))) * float64(uint64(1)<<uint(r.Intn(30)))
+		if r.Intn(2) == 0 {
+			f = -f
+		}
+		return []Ev{{K: "fl", F: f}}
+	case 12:
+		return []Ev{{K: "fl", F: float64(k)}}
+	case 13:
+		return []Ev{{K: "fl", F: float64(k) / 8}}
+	case 14, 15: // decimal floats with integer values
+		return []Ev{{K: "df", DF: compact_float.DFloat{Coefficient: int64(k), Exponent: int32(r.Intn(25))}}}
+	case 16:
+		return []Ev{{K: "df", DF: compact_float.DFloat{Coefficient: -int64(k), Exponent: -int32(1 + r.Intn(3))}}}
+	case 17, 18: // big decimal floats
+		d := apd.NewWithBigInt(bigOf(fmt.Sprintf("%d123456789012345678901234567", k)), int32(r.Intn(12)))
+		d.Negative = r.Intn(2) == 0
+		return []Ev{{K: "bdf", BDF: d}}
+	case 19:
+		return []Ev{{K: "bdf", BDF: apd.New(int64(k), -2)}}
+	case 20, 21: // big floats
+		bf := new(big.Float).SetPrec(128).SetInt(new(big.Int).Add(new(big.Int).Lsh(big.NewInt(int64(k)), uint(70+r.Intn(30))), big.NewInt(1)))
+		if r.Intn(2) == 0 {
+			bf.Neg(bf)
+		}
+		return []Ev{{K: "bf", BF: bf}}
+	case 22:
+		bf, _, _ := big.ParseFloat(fmt.Sprintf("%d.5", k), 10, 100, big.ToNearestEven)
+		return []Ev{{K: "bf", BF: bf}}
+	case 23:
+		return []Ev{{K: "nan", B: r.Intn(2) == 0}}
+	case 24:
+		return []Ev{{K: "null"}}
+	}
+	return []Ev{{K: "sa", A: events.ArrayTypeString, Data: []byte(fmt.Sprint(k))}}
+}
+
+// a list value for a slice / array destination: a typed array of any element type or a list of numbers
+func c17ListSource(r *rand.Rand, want reflect.Type) []Ev {
+	n := 1 + r.Intn(3)
+	if want.Kind() == reflect.Array {
+		n = want.Len()
+	}
+	typed := func(at events.ArrayType, width int) []Ev {
+		data := make([]byte, n*width)
+		for i := 0; i < n; i++ {
+			v := uint64(r.Intn(100))
+			switch at {
+			case events.ArrayTypeFloat32:
+				v = uint64(math.Float32bits(float32(v) / 4))
+			case events.ArrayTypeFloat64:
+				v = math.Float64bits(float64(v) / 4)
+			}
+			for b := 0; b < width; b++ {
+				data[i*width+b] = byte(v >> (8 * uint(b)))
+			}
+		}
+		return []Ev{{K: "a", A: at, N: uint64(n), Data: data}}
+	}
+	own := map[reflect.Kind][2]int{reflect.Int8: {int(events.ArrayTypeInt8), 1}, reflect.Int16: {int(events.ArrayTypeInt16), 2},
+		reflect.Int32: {int(events.ArrayTypeInt32), 4}, reflect.Int64: {int(events.ArrayTypeInt64), 8}, reflect.Uint8: {int(events.ArrayTypeUint8), 1},
+		reflect.Uint16: {int(events.ArrayTypeUint16), 2}, reflect.Uint32: {int(events.ArrayTypeUint32), 4}, reflect.Uint64: {int(events.ArrayTypeUint64), 8},
+		reflect.Float32: {int(events.ArrayTypeFloat32), 4}, reflect.Float64: {int(events.ArrayTypeFloat64), 8}}
+	if o, ok := own[want.Elem().Kind()]; ok && r.Intn(3) == 0 {
+		return typed(events.ArrayType(o[0]), o[1])
+	}
+	if r.Intn(8) == 0 { // an array of another element type
+		all := [][2]int{}
+		for _, o := range own {
+			all = append(all, o)
+		}
+		sort.Slice(all, func(i, j int) bool { return all[i][0] < all[j][0] })
+		o := all[r.Intn(len(all))]
+		return typed(events.ArrayType(o[0]), o[1])
+	}
+	evs := []Ev{{K: "l"}}
+	for i := 0; i < n; i++ {
+		if r.Intn(3) == 0 {
+			evs = append(evs, c17NumSource(r)...)
+		} else {
+			evs = append(evs, Ev{K: "pi", N: uint64(r.Intn(100))})
+		}
+	}
+	return append(evs, Ev{K: "e"})
+}
+
+// c17ConvEvents: a document for a value of struct type t (one of c17ConvTypes) in which every field gets a number
+// in a randomly chosen source form; the keys are spelled in the given style.  Unless wild, a source form that the
+// field's builder rejects (tried alone, on a document with that field only) is replaced by another one, so that
+// most documents are built to the end.
+func c17ConvEvents(r *rand.Rand, t reflect.Type, style int, wild bool) []Ev {
+	evs := []Ev{{K: "bd"}, {K: "v", N: 0}, {K: "m"}}
+	for i := 0; i < t.NumField(); i++ {
+		f := t.Field(i)
+		if r.Intn(5) == 0 {
+			continue
+		}
+		st := style
+		if st < 0 {
+			st = r.Intn(c17SpellStyles)
+		}
+		// the key as the marshalers would write it, then re-spelled
+		key := Ev{K: "sa", A: events.ArrayTypeString, Data: []byte(c17Spell(r, strings.ToLower(c17SplitWords(f.Name)), st))}
+		for try := 0; try < 8; try++ {
+			var val []Ev
+			if f.Type.Kind() == reflect.Slice && f.Type.Elem().Kind() != reflect.Uint8 || f.Type.Kind() == reflect.Array {
+				val = c17ListSource(r, f.Type)
+			} else if f.Type.Kind() == reflect.Slice {
+				val = []Ev{{K: "a", A: events.ArrayTypeUint8, N: 2, Data: []byte{byte(r.Intn(256)), 7}}}
+			} else {
+				val = c17NumSource(r)
+			}
+			if wild || c17ConvAccepted(t, key, val) {
+				evs = append(append(evs, key), val...)
+				break
+			}
+		}
+	}
+	return append(evs, Ev{K: "e"}, Ev{K: "ed"})
+}
+
+// is a document holding just this field built without error (run alone, new instances; no answer in 2 s = no)
+func c17ConvAccepted(t reflect.Type, key Ev, val []Ev) bool {
+	cfg := configuration.New()
+	doc, _ := c17EncodeBoth(cfg, append(append([]Ev{{K: "bd"}, {K: "v", N: 0}, {K: "m"}, key}, val...), Ev{K: "e"}, Ev{K: "ed"}))
+	if doc == nil {
+		return false
+	}
+	done := make(chan bool, 1)
+	go func() {
+		defer func() {
+			if r := recover(); r != nil {
+				done <- false
+			}
+		}()
+		_, err := ce.UnmarshalFromCBEDocument(doc, reflect.New(t).Elem().Interface(), cfg)
+		done <- err == nil
+	}()
+	select {
+	case ok := <-done:
+		return ok
+	case <-time.After(2 * time.Second):
+		return false
+	}
+}
+
+// FirstFieldName -> First_Field_Name, HTTPStatusCode -> HTTP_Status_Code (only used to write keys: any split is an accepted spelling)
+func c17SplitWords(name string) string {
+	sb := strings.Builder{}
+	rs := []rune(name)
+	isUp := func(c rune) bool { return c >= 'A' && c <= 'Z' }
+	for i, c := range rs {
+		if i > 0 && isUp(c) && (!isUp(rs[i-1]) || i+1 < len(rs) && !isUp(rs[i+1]) && rs[i+1] > '9') {
+			sb.WriteByte('_')
+		}
+		sb.WriteRune(c)
+	}
+	return sb.String()
+}
+
+// ---------------------------------------------------------------------------
 // Workload items and calls
 
 type c17Item struct {
@@ -355,7 +827,66 @@ type c17Result struct {
 }
 
 func (a c17Result) same(b c17Result) bool {
-	return a.Err == b.Err && bytes.Equal(a.Bytes, b.Bytes) && a.Text == b.Text && reflect.DeepEqual(a.Obj, b.Obj)
+	return a.Err == b.Err && bytes.Equal(a.Bytes, b.Bytes) && a.Text == b.Text &&
+		(reflect.DeepEqual(a.Obj, b.Obj) || c17EqualNaN(reflect.ValueOf(a.Obj), reflect.ValueOf(b.Obj), 0))
+}
+
+// c17EqualNaN is reflect.DeepEqual except that a NaN equals a NaN (a document can carry NaN: both runs then build one)
+func c17EqualNaN(a, b reflect.Value, depth int) bool {
+	if !a.IsValid() || !b.IsValid() {
+		return a.IsValid() == b.IsValid()
+	}
+	if a.Type() != b.Type() || depth > 100 {
+		return false
+	}
+	switch a.Kind() {
+	case reflect.Float32, reflect.Float64:
+		return a.Float() == b.Float() || a.Float() != a.Float() && b.Float() != b.Float()
+	case reflect.Interface, reflect.Ptr:
+		if a.IsNil() || b.IsNil() {
+			return a.IsNil() == b.IsNil()
+		}
+		return c17EqualNaN(a.Elem(), b.Elem(), depth+1)
+	case reflect.Struct:
+		for i := 0; i < a.NumField(); i++ {
+			if !c17EqualNaN(a.Field(i), b.Field(i), depth+1) {
+				return false
+			}
+		}
+		return true
+	case reflect.Slice, reflect.Array:
+		if a.Kind() == reflect.Slice && a.IsNil() != b.IsNil() || a.Len() != b.Len() {
+			return false
+		}
+		for i := 0; i < a.Len(); i++ {
+			if !c17EqualNaN(a.Index(i), b.Index(i), depth+1) {
+				return false
+			}
+		}
+		return true
+	case reflect.Map:
+		if a.IsNil() != b.IsNil() || a.Len() != b.Len() {
+			return false
+		}
+		for _, k := range a.MapKeys() {
+			bv := b.MapIndex(k)
+			if !bv.IsValid() || !c17EqualNaN(a.MapIndex(k), bv, depth+1) {
+				return false
+			}
+		}
+		return true
+	case reflect.Bool:
+		return a.Bool() == b.Bool()
+	case reflect.Int, reflect.Int8, reflect.Int16, reflect.Int32, reflect.Int64:
+		return a.Int() == b.Int()
+	case reflect.Uint, reflect.Uint8, reflect.Uint16, reflect.Uint32, reflect.Uint64, reflect.Uintptr:
+		return a.Uint() == b.Uint()
+	case reflect.String:
+		return a.String() == b.String()
+	case reflect.Complex64, reflect.Complex128:
+		return a.Complex() == b.Complex()
+	}
+	return false // chan, func, unsafe pointer: only reflect.DeepEqual's answer counts
 }
 
 func (a c17Result) String() string {
@@ -364,7 +895,7 @@ func (a c17Result) String() string {
 		s += " bytes=" + hex.EncodeToString(a.Bytes)
 	}
 	if a.Obj != nil {
-		s += " obj=" + describe.D(a.Obj)
+		s += " obj=" + canonDescribe(a.Obj)
 	}
 	if a.Text != "" {
 		s += " " + a.Text
@@ -477,6 +1008,12 @@ func c17Call(in *c17Instances, op string, it *c17Item) (res c17Result) {
 func c17MakeItems(r *rand.Rand, nDyn, nItems int, tag string) []*c17Item {
 	types := append([]reflect.Type{}, c17StaticTypes...)
 	types = append(types, c17DynTypes(r, nDyn, tag)...)
+	if nDyn < 0 { // only the numeric destination types
+		types = nil
+	}
+	for n := 0; n < 3; n++ { // several documents per numeric destination type: different numbers in flight at the same time
+		types = append(types, c17ConvTypes...)
+	}
 	items := []*c17Item{}
 	for i := 0; i < nItems; i++ {
 		t := types[r.Intn(len(types))]
@@ -490,6 +1027,27 @@ func c17MakeItems(r *rand.Rand, nDyn, nItems int, tag string) []*c17Item {
 		it.DocB, _ = ce.MarshalToCBEDocument(it.Val, cfg)
 		it.DocT, _ = ce.MarshalToCTEDocument(it.Val, cfg)
 		it.DocB, it.DocT = append([]byte{}, it.DocB...), append([]byte{}, it.DocT...)
+		// the documents to unmarshal: for the numeric destinations every field from any numeric source form; for the
+		// other types with struct fields, two times out of three, the marshaled document with its keys re-spelled
+		style := r.Intn(c17SpellStyles+3) - 3 // negative: another style for every key
+		isConv := false
+		for _, ct := range c17ConvTypes {
+			isConv = isConv || t == ct
+		}
+		var evs []Ev
+		switch {
+		case isConv:
+			evs = c17ConvEvents(r, t, style, r.Intn(5) == 0)
+		case len(c17KeySet(t)) > 0 && r.Intn(3) != 0:
+			if evs = c17IterEvents(cfg, it.Val); evs != nil {
+				evs = c17Respell(r, evs, c17KeySet(t), style, r.Intn(4) == 0)
+			}
+		}
+		if evs != nil {
+			if b, x := c17EncodeBoth(cfg, evs); b != nil && x != nil {
+				it.DocB, it.DocT = b, x
+			}
+		}
 		it.Evs = NewEvGen(r, DefaultGenOpts()).Document()
 		if r.Intn(8) == 0 {
 			it.Evs = NewEvGen(r, DefaultGenOpts()).Mutate(it.Evs) // now and then a stream the validator rejects
@@ -541,9 +1099,10 @@ type c17WorkloadReport struct {
 	Mismatches []c17Mismatch
 	Hung       bool
 	OpsCount   map[string]int
+	AloneHangs []string `json:",omitempty"` // calls that do not return even when run alone: left out (a sequential defect)
 }
 
-var c17Modes = []string{"separate", "fresh", "shared", "shared-cold"}
+var c17Modes = []string{"separate", "fresh", "shared", "shared-cold", "conversions"}
 
 // c17RunWorkload: the concurrent workload.
 //
@@ -551,12 +1110,18 @@ var c17Modes = []string{"separate", "fresh", "shared", "shared-cold"}
 //	fresh        every call makes new instances (the package-level convenience functions)
 //	shared       one iterator.Session and one builder.Session shared by all goroutines, each call with its own encoder / decoder / validator
 //	shared-cold  as shared, and all goroutines start with the same new types at the same moment (first use races on the shared caches)
+//	conversions  only unmarshal calls, only the numeric destination types, documents with numbers in every source form: goroutines with
+//	             their own unmarshalers (even ones) or new unmarshalers for every call (odd ones) meet in the package-level builder singletons
 //
 // Every result is compared with the result of the same call on fresh instances, run alone before the goroutines start.
 func c17RunWorkload(seed int64, goroutines, procs int, mode string, nItems, callsPer int) c17WorkloadReport {
 	rep := c17WorkloadReport{Seed: seed, Goroutines: goroutines, Procs: procs, Mode: mode, OpsCount: map[string]int{}}
 	r := rand.New(rand.NewSource(seed))
-	items := c17MakeItems(r, 6, nItems, fmt.Sprintf("%d-%s", seed, mode))
+	nDyn := 6
+	if mode == "conversions" {
+		nDyn = -1
+	}
+	items := c17MakeItems(r, nDyn, nItems, fmt.Sprintf("%d-%s", seed, mode))
 	// expected results: run alone
 	expect := make([]map[string]c17Result, len(items))
 	for i, it := range items {
@@ -579,6 +1144,9 @@ func c17RunWorkload(seed int64, goroutines, procs int, mode string, nItems, call
 	for g := range plans {
 		for k := 0; k < callsPer; k++ {
 			c := call{item: r.Intn(len(items)), op: c17Ops[r.Intn(len(c17Ops))]}
+			if mode == "conversions" {
+				c.op = []string{"unmarshal-cbe", "unmarshal-cte"}[r.Intn(2)]
+			}
 			if mode == "shared-cold" {
 				// everybody walks the same items in the same order, marshal then unmarshal
 				c.item = k / 2 % len(items)
@@ -599,7 +1167,9 @@ func c17RunWorkload(seed int64, goroutines, procs int, mode string, nItems, call
 	var mu sync.Mutex
 	var wg sync.WaitGroup
 	start := make(chan struct{})
-	var calls int64
+	// one counter per goroutine, a cache line apart: an atomic operation on a common counter after every call would order
+	// the calls of different goroutines for the race detector (and hide races between calls that do not overlap in time)
+	callsBy := make([]int64, goroutines*8)
 	for g := 0; g < goroutines; g++ {
 		wg.Add(1)
 		go func(g int) {
@@ -610,13 +1180,15 @@ func c17RunWorkload(seed int64, goroutines, procs int, mode string, nItems, call
 				in = c17NewInstances(configuration.New(), false, nil, nil)
 			case "fresh":
 				in = c17NewInstances(configuration.New(), true, nil, nil)
+			case "conversions":
+				in = c17NewInstances(configuration.New(), g%2 == 1, nil, nil)
 			default:
 				in = c17NewInstances(sharedCfg, true, iterS, buildS)
 			}
 			<-start
 			for _, c := range plans[g] {
 				got := c17Call(in, c.op, items[c.item])
-				atomic.AddInt64(&calls, 1)
+				atomic.AddInt64(&callsBy[g*8], 1)
 				if want := expect[c.item][c.op]; !got.same(want) {
 					mu.Lock()
 					rep.Mismatches = append(rep.Mismatches, c17Mismatch{Mode: mode, Op: c.op, Goroutine: g, Item: c.item,
@@ -634,10 +1206,266 @@ func c17RunWorkload(seed int64, goroutines, procs int, mode string, nItems, call
 	case <-time.After(120 * time.Second):
 		rep.Hung = true
 	}
-	rep.Calls = int(atomic.LoadInt64(&calls))
+	for g := 0; g < goroutines; g++ {
+		rep.Calls += int(atomic.LoadInt64(&callsBy[g*8]))
+	}
 	for _, p := range plans {
 		for _, c := range p {
 			rep.OpsCount[c.op]++
+		}
+	}
+	return rep
+}
+
+// ---------------------------------------------------------------------------
+// Session storm: every shareable object of the public API used by all goroutines at once, on inputs that make every
+// lazily filled structure be filled while others read it.
+//
+//	one              one iterator.Session and one builder.Session shared by all goroutines
+//	children-after   a parent session that has already met every type; every goroutine works on its own child session
+//	                 made from it afterwards (the children inherit the parent's generated functions)
+//	children-during  goroutine 0 works on the parent; the others work on the parent too and, every few steps, replace
+//	                 their session by a new child made from the parent while the parent is in use
+//	chain            parent -> child -> grandchild, each made after its parent has met some of the types; goroutine g
+//	                 works on the session at depth g mod 3
+//
+// In every step all goroutines (released together by a barrier) marshal a value of the same struct type through
+// their iterator session and unmarshal documents for it through their builder session.  The documents' keys are
+// spelled in a way no session has seen before (c17Spell: snake_case, mixed case, separators ...): in even steps all
+// goroutines get the same new spelling, in odd steps goroutine g gets spelling variant g mod 3.  In odd rounds the
+// configuration declares record types, so that values are sent and built as records.  Every result is compared with
+// the result of the same call on a new session without parent, run alone before the goroutines start.
+
+var c17Topologies = []string{"one", "children-after", "children-during", "chain"}
+
+type c17Barrier struct {
+	mu         sync.Mutex
+	cond       *sync.Cond
+	n, at, gen int
+}
+
+func (b *c17Barrier) wait() {
+	b.mu.Lock()
+	gen := b.gen
+	b.at++
+	if b.at == b.n {
+		b.at = 0
+		b.gen++
+		b.cond.Broadcast()
+	} else {
+		for gen == b.gen {
+			b.cond.Wait()
+		}
+	}
+	b.mu.Unlock()
+}
+
+// c17Guard runs f and reports whether it returned within the limit
+func c17Guard(limit time.Duration, f func()) bool {
+	done := make(chan struct{})
+	go func() { defer close(done); f() }()
+	select {
+	case <-done:
+		return true
+	case <-time.After(limit):
+		return false
+	}
+}
+
+func c17SessionStorm(seed int64, goroutines, procs int, topo string, rounds, steps int) c17WorkloadReport {
+	rep := c17WorkloadReport{Seed: seed, Goroutines: goroutines, Procs: procs, Mode: "sessions-" + topo, OpsCount: map[string]int{}}
+	old := runtime.GOMAXPROCS(procs)
+	defer runtime.GOMAXPROCS(old)
+	r := rand.New(rand.NewSource(seed))
+	var mu sync.Mutex
+	const variants = 3
+	type stepDocs struct {
+		typ    int
+		doc    [variants][2][]byte    // variant x (CBE, CTE)
+		expect [variants][2]c17Result // run alone
+		skip   bool
+	}
+	for round := 0; round < rounds; round++ {
+		named, inner := reflect.TypeOf(c17Named{}), reflect.TypeOf(c17NamedInner{})
+		dyn := c17DynTypes(r, 4, fmt.Sprintf("sess-%d-%d-%s", seed, round, topo))
+		types := append([]reflect.Type{named, inner, reflect.TypeOf([]c17Named{}), reflect.TypeOf(map[string]*c17NamedInner{})}, dyn...)
+		types = append(types, c17ConvTypes...)
+		cfg := configuration.New()
+		if round%2 == 1 {
+			cfg.Iterator.RecordTypes[inner] = "inner_rec"
+			cfg.Iterator.RecordTypes[dyn[0]] = "dyn_rec"
+		}
+		keys := c17KeySet(types...)
+		vals := make([]interface{}, len(types))
+		expectM := make([][2]c17Result, len(types))
+		marshal := func(is *iterator.Session, i, format int) c17Result {
+			var enc ce.Encoder = ce.NewCBEEncoder(cfg)
+			if format == 1 {
+				enc = ce.NewCTEEncoder(cfg)
+			}
+			d, err := c17IterMarshal(is, enc, vals[i])
+			return c17Result{Err: err != nil, Bytes: append([]byte{}, d...)}
+		}
+		unmarshal := func(bs *builder.Session, i, format int, doc []byte) c17Result {
+			var dec ce.Decoder = ce.NewCBEDecoder(cfg)
+			if format == 1 {
+				dec = ce.NewCTEDecoder(cfg)
+			}
+			o, err := c17BuildUnmarshal(bs, dec, cfg, doc, reflect.New(types[i]).Elem().Interface())
+			return c17Result{Err: err != nil, Obj: o}
+		}
+		// Values, documents and run-alone results.  Only the library calls run under a time limit (a call that does not
+		// return even alone is a sequential defect, reported apart): what is left behind after a time-out shares nothing
+		// with the rest of the harness (no random source, no table).
+		for i, t := range types {
+			for depth := 3; depth >= 0; depth-- { // values whose document is large are drawn again, shallower
+				p := reflect.New(t)
+				c17Fill(r, p.Elem(), depth)
+				vals[i] = p.Interface()
+				if d, _ := ce.MarshalToCBEDocument(vals[i], cfg); len(d) < 20000 {
+					break
+				}
+			}
+		}
+		aloneOK := true
+		for i := range types {
+			for f := 0; f < 2 && aloneOK; f++ {
+				var res c17Result
+				if aloneOK = c17Guard(60*time.Second, func() { res = marshal(iterator.NewSession(nil, cfg), i, f) }); aloneOK {
+					expectM[i][f] = res
+				}
+			}
+		}
+		if !aloneOK {
+			c17AloneHangs = append(c17AloneHangs, "session storm: marshal")
+			continue
+		}
+		plan := make([]*stepDocs, steps)
+		hangs := map[int]bool{} // types with a document whose unmarshaling does not return even alone: left out from then on
+		for k := range plan {
+			sd := &stepDocs{typ: k % len(types)}
+			plan[k] = sd
+			for v := 0; v < variants && !sd.skip && !hangs[sd.typ]; v++ {
+				var evs []Ev
+				style := 1 + (k/len(types)+v*3+r.Intn(2))%(c17SpellStyles-1)
+				if r.Intn(4) == 0 {
+					style = -1
+				}
+				isConv := false
+				for _, ct := range c17ConvTypes {
+					isConv = isConv || types[sd.typ] == ct
+				}
+				if isConv {
+					evs = c17ConvEvents(r, types[sd.typ], style, false)
+				} else if evs = c17IterEvents(cfg, vals[sd.typ]); evs != nil {
+					evs = c17Respell(r, evs, keys, style, r.Intn(5) == 0)
+				}
+				sd.doc[v][0], sd.doc[v][1] = c17EncodeBoth(cfg, evs)
+				for f := 0; f < 2 && !sd.skip; f++ {
+					if evs == nil || sd.doc[v][f] == nil {
+						sd.skip = true
+						break
+					}
+					var res c17Result
+					doc := sd.doc[v][f]
+					if c17Guard(60*time.Second, func() { res = unmarshal(builder.NewSession(nil, cfg), sd.typ, f, doc) }) {
+						sd.expect[v][f] = res
+					} else {
+						sd.skip, hangs[sd.typ] = true, true
+						c17AloneHangs = append(c17AloneHangs, "session storm: unmarshal "+types[sd.typ].String())
+					}
+				}
+			}
+			sd.skip = sd.skip || hangs[sd.typ]
+		}
+		// the sessions
+		pi, pb := iterator.NewSession(nil, cfg), builder.NewSession(nil, cfg)
+		warm := func(is *iterator.Session, bs *builder.Session, which func(i int) bool) {
+			for i := range types {
+				if which(i) {
+					d := marshal(is, i, 0)
+					unmarshal(bs, i, 0, d.Bytes)
+				}
+			}
+		}
+		iss, bss := make([]*iterator.Session, goroutines), make([]*builder.Session, goroutines)
+		for g := range iss {
+			iss[g], bss[g] = pi, pb
+		}
+		warmed := true
+		switch topo {
+		case "children-after":
+			warmed = c17Guard(30*time.Second, func() { warm(pi, pb, func(int) bool { return true }) })
+			for g := range iss {
+				iss[g], bss[g] = iterator.NewSession(pi, cfg), builder.NewSession(pb, cfg)
+			}
+		case "chain":
+			var ci, gi *iterator.Session
+			var cb, gb *builder.Session
+			warmed = c17Guard(30*time.Second, func() {
+				warm(pi, pb, func(i int) bool { return i%2 == 0 })
+				ci, cb = iterator.NewSession(pi, cfg), builder.NewSession(pb, cfg)
+				warm(ci, cb, func(i int) bool { return i%4 == 1 })
+				gi, gb = iterator.NewSession(ci, cfg), builder.NewSession(cb, cfg)
+			})
+			if warmed {
+				for g := range iss {
+					iss[g], bss[g] = []*iterator.Session{pi, ci, gi}[g%3], []*builder.Session{pb, cb, gb}[g%3]
+				}
+			}
+		}
+		if !warmed {
+			c17AloneHangs = append(c17AloneHangs, "session storm: warming the parent session")
+			continue
+		}
+		bar := &c17Barrier{n: goroutines}
+		bar.cond = sync.NewCond(&bar.mu)
+		var wg sync.WaitGroup
+		for g := 0; g < goroutines; g++ {
+			wg.Add(1)
+			go func(g int) {
+				defer wg.Done()
+				is, bs := iss[g], bss[g]
+				// results are collected here and merged when the goroutine is through (no common lock between the calls)
+				nSteps := 0
+				var mism []c17Mismatch
+				differs := func(op string, k int, sd *stepDocs, want, got c17Result) {
+					if !got.same(want) {
+						mism = append(mism, c17Mismatch{Mode: rep.Mode, Op: op, Goroutine: g, Item: k, Type: types[sd.typ].String(), Expect: want.String(), Got: got.String()})
+					}
+				}
+				for k, sd := range plan {
+					bar.wait()
+					if topo == "children-during" && g > 0 && k%4 == g%4 {
+						is, bs = iterator.NewSession(pi, cfg), builder.NewSession(pb, cfg)
+					}
+					if sd.skip {
+						continue
+					}
+					v := 0
+					if k%2 == 1 {
+						v = g % variants
+					}
+					f := (k/len(types) + g) % 2
+					gotM := marshal(is, sd.typ, f)
+					gotU := unmarshal(bs, sd.typ, f, sd.doc[v][f])
+					gotU2 := unmarshal(bs, sd.typ, 1-f, sd.doc[v][1-f])
+					nSteps++
+					differs("session-marshal", k, sd, expectM[sd.typ][f], gotM)
+					differs("session-unmarshal", k, sd, sd.expect[v][f], gotU)
+					differs("session-unmarshal", k, sd, sd.expect[v][1-f], gotU2)
+				}
+				mu.Lock()
+				rep.Calls += 3 * nSteps
+				rep.OpsCount["session-marshal"] += nSteps
+				rep.OpsCount["session-unmarshal"] += 2 * nSteps
+				rep.Mismatches = append(rep.Mismatches, mism...)
+				mu.Unlock()
+			}(g)
+		}
+		if !c17Guard(90*time.Second, wg.Wait) {
+			rep.Hung = true
+			return rep
 		}
 	}
 	return rep
@@ -676,9 +1504,12 @@ func c17WorkerMain(args []string) int {
 	}
 	if args[3] == "caches" {
 		rep = c17CacheStorm(seed, g, procs)
+	} else if strings.HasPrefix(args[3], "sessions-") {
+		rep = c17SessionStorm(seed, g, procs, strings.TrimPrefix(args[3], "sessions-"), nItems, callsPer) // rounds, steps
 	} else {
 		rep = c17RunWorkload(seed, g, procs, args[3], nItems, callsPer)
 	}
+	rep.AloneHangs = c17AloneHangs
 	b, _ := json.Marshal(rep)
 	fmt.Println(string(b))
 	if rep.Hung {
@@ -700,6 +1531,7 @@ func c17CacheStorm(seed int64, goroutines, procs int) c17WorkloadReport {
 	var mu sync.Mutex
 	for round := 0; round < 6; round++ {
 		types := append(c17DynTypes(r, 5, fmt.Sprintf("storm-%d-%d", seed, round)), c17StaticTypes[:7]...)
+		types = append(types, reflect.TypeOf(c17Named{}), reflect.TypeOf([]c17NamedInner{}))
 		vals := make([]reflect.Value, len(types))
 		expect := make([]c17Result, len(types))
 		expectB := make([]c17Result, len(types))
@@ -719,26 +1551,33 @@ func c17CacheStorm(seed int64, goroutines, procs int) c17WorkloadReport {
 			go func(g int) {
 				defer wg.Done()
 				<-start
+				// results are collected here and merged when the goroutine is through: taking the common lock after
+				// every call would order the calls of different goroutines for the race detector
+				nCalls, nPh := 0, 0
+				var mism []c17Mismatch
 				for k := range types {
 					i := (k + g*(round%3)) % len(types)
 					kind := ""
 					got := c17IterUseK(is, types[i], vals[i], &kind)
 					gotB := c17BuildUse(bs, types[i], vals[i])
-					mu.Lock()
-					rep.Calls += 2
+					nCalls += 2
 					if kind == "ph" {
-						rep.OpsCount["iter-handed-placeholder"]++
+						nPh++
 					}
-					rep.OpsCount["iter-get-use"]++
-					rep.OpsCount["build-get-use"]++
 					if !got.same(expect[i]) {
-						rep.Mismatches = append(rep.Mismatches, c17Mismatch{Mode: "caches", Op: "iter-get-use", Goroutine: g, Item: i, Type: types[i].String(), Expect: expect[i].String(), Got: got.String()})
+						mism = append(mism, c17Mismatch{Mode: "caches", Op: "iter-get-use", Goroutine: g, Item: i, Type: types[i].String(), Expect: expect[i].String(), Got: got.String()})
 					}
 					if !gotB.same(expectB[i]) {
-						rep.Mismatches = append(rep.Mismatches, c17Mismatch{Mode: "caches", Op: "build-get-use", Goroutine: g, Item: i, Type: types[i].String(), Expect: expectB[i].String(), Got: gotB.String()})
+						mism = append(mism, c17Mismatch{Mode: "caches", Op: "build-get-use", Goroutine: g, Item: i, Type: types[i].String(), Expect: expectB[i].String(), Got: gotB.String()})
 					}
-					mu.Unlock()
 				}
+				mu.Lock()
+				rep.Calls += nCalls
+				rep.OpsCount["iter-handed-placeholder"] += nPh
+				rep.OpsCount["iter-get-use"] += nCalls / 2
+				rep.OpsCount["build-get-use"] += nCalls / 2
+				rep.Mismatches = append(rep.Mismatches, mism...)
+				mu.Unlock()
 			}(g)
 		}
 		close(start)
@@ -785,6 +1624,11 @@ func c17IterUseK(s *iterator.Session, t reflect.Type, v reflect.Value, kind *str
 
 // GetBuilderGeneratorForType (through a builder for t), then build from the CBE document of v
 func c17BuildUse(s *builder.Session, t reflect.Type, v reflect.Value) (res c17Result) {
+	return c17BuildUseSp(s, t, v, 0)
+}
+
+// spell != 0: the keys of the document are re-spelled (c17Respell, a different style for every key, chosen by spell)
+func c17BuildUseSp(s *builder.Session, t reflect.Type, v reflect.Value, spell int64) (res c17Result) {
 	defer func() {
 		if r := recover(); r != nil {
 			res = c17Result{Err: true, Text: "panic"}
@@ -796,6 +1640,12 @@ func c17BuildUse(s *builder.Session, t reflect.Type, v reflect.Value) (res c17Re
 	if err != nil {
 		// values of unsupported types cannot be marshaled: write the document by hand (CTE)
 		doc, dec = []byte("c0 "+c17HandDoc(v)), ce.NewCTEDecoder(cfg)
+	} else if spell != 0 {
+		if evs := c17IterEvents(cfg, v.Addr().Interface()); evs != nil {
+			if b, _ := c17EncodeBoth(cfg, c17Respell(rand.New(rand.NewSource(spell)), evs, c17KeySet(t), -1, false)); b != nil {
+				doc = b
+			}
+		}
 	}
 	o, err := c17BuildUnmarshal(s, dec, cfg, doc, v.Interface())
 	return c17Result{Err: err != nil, Obj: o}
@@ -1041,8 +1891,9 @@ func c17WrittenAsNull(v reflect.Value) bool {
 
 // one call of a scenario: ask the shared session for the function of Typ and use it on Val
 type c17ScCall struct {
-	Typ reflect.Type
-	Val reflect.Value
+	Typ   reflect.Type
+	Val   reflect.Value
+	Spell int64 // builder side: not 0 = the document's keys are re-spelled (the model's prediction does not depend on the spelling)
 }
 
 type c17Obs struct {
@@ -1128,7 +1979,7 @@ func c17RunGroup(side string, is *iterator.Session, bs *builder.Session, threads
 				if side == "iter" {
 					r.res = c17IterUseK(is, call.Typ, call.Val, &r.kind)
 				} else {
-					r.res = c17BuildUse(bs, call.Typ, call.Val)
+					r.res = c17BuildUseSp(bs, call.Typ, call.Val, call.Spell)
 				}
 				r.returned = true
 				mu.Lock()
@@ -1334,6 +2185,27 @@ func c17ConcScenario(c *Ctx, cf *caseFile, side string, threads [][]c17ScCall, p
 	ths, oss, names := []string{}, []string{}, []string{}
 	for i, th := range threads {
 		obs[i] = c17Classify(side, th, raw[i])
+	}
+	// The goroutines of a group have no order (all are started together), the model's search for a schedule has: it
+	// tries the first thread first.  Threads that were handed generated functions only are listed before those that were
+	// handed placeholders (fewest first), so that the schedule is found without exhausting the schedules in which a
+	// placeholder observer moves first (the same case, much less search).
+	order := make([]int, len(threads))
+	rank := func(i int) int { // how many of its calls were handed a placeholder
+		n := 0
+		for _, o := range obs[i] {
+			if o.Kind == "ph" {
+				n++
+			}
+		}
+		return n
+	}
+	for i := range order {
+		order[i] = i
+	}
+	sort.SliceStable(order, func(a, b int) bool { return rank(order[a]) < rank(order[b]) })
+	for _, i := range order {
+		th := threads[i]
 		ths = append(ths, c17JobsCoq(tt, th))
 		oss = append(oss, c17ObsCoq(obs[i]))
 		for k, o := range obs[i] {
@@ -1361,7 +2233,14 @@ func c17FailMismatches(c *Ctx, rep c17WorkloadReport, how string) {
 }
 
 func c17RunRaceBinary(bin string, seed int64, g, procs int, mode string, nItems, callsPer int) (out string, rc int, err error) {
-	cmd := exec.Command(bin, "c17worker", fmt.Sprint(seed), fmt.Sprint(g), fmt.Sprint(procs), mode, fmt.Sprint(nItems), fmt.Sprint(callsPer))
+	return c17RunChild(bin, 300*time.Second, c17WorkerArgs(c17Combo{g, procs, mode, nItems, callsPer}, seed)...)
+}
+
+// c17RunChild runs a hidden sub-command of a harness binary as a process of its own.  Everything that uses shared
+// library objects from several goroutines runs this way: a `fatal error: concurrent map read and map write` ends
+// the process it happens in, and must end up in the report as a failure, not as a harness breakdown.
+func c17RunChild(bin string, limit time.Duration, args ...string) (out string, rc int, err error) {
+	cmd := exec.Command(bin, args...)
 	cmd.Env = append(os.Environ(), "GORACE=halt_on_error=0 exitcode=66")
 	var buf bytes.Buffer
 	cmd.Stdout, cmd.Stderr = &buf, &buf
@@ -1379,35 +2258,155 @@ func c17RunRaceBinary(bin string, seed int64, g, procs int, mode string, nItems,
 				rc = ee.ExitCode()
 			}
 		}
-	case <-time.After(300 * time.Second):
+	case <-time.After(limit):
 		cmd.Process.Kill()
 		rc = 124
 	}
 	return buf.String(), rc, nil
 }
 
-func runC17(c *Ctx) {
-	c.Rep.Rule = "workloads: (mode in separate|fresh|shared|shared-cold|caches) x goroutine counts x GOMAXPROCS values; every call of every goroutine is one evaluation, " +
-		"compared with the same call run alone on new instances; a call is non-trivial when its item has a struct/container type that the package-level root sessions do not hold " +
-		"(so the per-session cache is cold on first use); distinct = distinct (mode, goroutines, gomaxprocs, seed, call). Scenarios: sequences and concurrent groups of " +
-		"GetIteratorForType/GetBuilderGeneratorForType + use on one new session, including unsupported element kinds (chan, func, complex) and recursive types; " +
-		"each scenario is one Coq case (model must predict ok/error/never-returns and placeholder-or-generated exactly for sequences, and reach the observed outcome under some schedule for concurrent groups)"
-	cf := c.Cases("cache", "CE.Model.Cache", "cache_case", "cache_case_ok")
-
-	// ---- 1. in-process workloads (no race detector): every result against the run-alone result
-	type combo struct {
-		g, procs int
-		mode     string
+// c17CrashKey names the way a child process ended when it did not end by itself
+func c17CrashKey(where, out string, rc int) string {
+	if strings.Contains(out, "fatal error: ") {
+		// the runtime's message; lines of several goroutines (and of the race detector) can be interleaved with it
+		for _, known := range []string{"concurrent map read and map write", "concurrent map writes", "concurrent map iteration and map write",
+			"all goroutines are asleep", "stack overflow", "out of memory"} {
+			if strings.Contains(out, "fatal error: "+known) {
+				return "C17/process-crash/" + where + "/" + strings.ReplaceAll(known, " ", "-")
+			}
+		}
+		return "C17/process-crash/" + where + "/fatal-error"
 	}
-	combos := []combo{}
-	for _, mode := range append(append([]string{}, c17Modes...), "caches") {
-		for _, gp := range [][2]int{{2, 1}, {4, 2}, {8, 4}, {16, 8}, {32, 16}} {
-			combos = append(combos, combo{gp[0], gp[1], mode})
+	if rc == 124 {
+		return "C17/never-returns/" + where
+	}
+	return "C17/worker-died/" + where
+}
+
+type c17Combo struct {
+	g, procs int
+	mode     string
+	a, b     int // items and calls per goroutine (workload modes), rounds and steps (session storms); unused for caches
+}
+
+// c17Account turns what one worker process printed into evaluations and failures
+func c17Account(c *Ctx, cb c17Combo, seed int64, how, out string, rc int) {
+	c.Dist(fmt.Sprintf("%s/%s/g=%d/procs=%d", how, cb.mode, cb.g, cb.procs))
+	input := map[string]string{"seed": fmt.Sprint(seed), "goroutines": fmt.Sprint(cb.g), "gomaxprocs": fmt.Sprint(cb.procs), "mode": cb.mode, "how": how,
+		"items": fmt.Sprint(cb.a), "calls": fmt.Sprint(cb.b)}
+	nRaces := strings.Count(out, "WARNING: DATA RACE")
+	if nRaces > 0 {
+		c.Fail(Replay{Kind: "race", Key: "C17/data-race/" + cb.mode + "/" + c17RaceSite(out), Input: input,
+			Expect: "no data race report", Got: fmt.Sprintf("%d reports; first: %s", nRaces, c17FirstRace(out))})
+	}
+	var rep c17WorkloadReport
+	parsed := false
+	for _, line := range strings.Split(out, "\n") {
+		if strings.HasPrefix(line, "{") && json.Unmarshal([]byte(line), &rep) == nil {
+			parsed = true
 		}
 	}
+	if parsed {
+		for k := 0; k < rep.Calls; k++ {
+			c.Count(fmt.Sprintf("%s/%s/%d/%d/%d/%d", how, cb.mode, cb.g, cb.procs, seed, k), true)
+		}
+		for op, n := range rep.OpsCount {
+			c.Rep.Distribution[how+"/"+cb.mode+"/"+op] += n
+		}
+		c17FailMismatches(c, rep, how)
+		c17AloneHangs = append(c17AloneHangs, rep.AloneHangs...)
+		c.Sample(map[string]string{"where": how, "mode": cb.mode, "goroutines": fmt.Sprint(cb.g), "gomaxprocs": fmt.Sprint(cb.procs),
+			"seed": fmt.Sprint(seed), "calls": fmt.Sprint(rep.Calls), "mismatches": fmt.Sprint(len(rep.Mismatches))})
+	}
+	if (rc != 0 && rc != 3 && rc != 4 && !(rc == 66 && nRaces > 0)) || !parsed {
+		tail := out
+		if i := strings.Index(out, "fatal error: "); i >= 0 {
+			tail = out[i:]
+			if len(tail) > 1500 {
+				tail = tail[:1500]
+			}
+		} else if len(tail) > 800 {
+			tail = tail[len(tail)-800:]
+		}
+		kind := "workload"
+		if how == "race-build" {
+			kind = "race"
+		}
+		c.Fail(Replay{Kind: kind, Key: c17CrashKey(cb.mode, out, rc), Input: input, Expect: "the worker process runs all its calls and exits with 0",
+			Got: fmt.Sprintf("exit %d: %s", rc, tail)})
+	}
+}
+
+func c17WorkerArgs(cb c17Combo, seed int64) []string {
+	return []string{"c17worker", fmt.Sprint(seed), fmt.Sprint(cb.g), fmt.Sprint(cb.procs), cb.mode, fmt.Sprint(cb.a), fmt.Sprint(cb.b)}
+}
+
+// c17RunCombos runs the worker processes (at most 4 at a time) and accounts for them in order
+func c17RunCombos(c *Ctx, bin, how string, combos []c17Combo) (runs int) {
+	type res struct {
+		seed int64
+		out  string
+		rc   int
+		err  error
+	}
+	outs := make([]res, len(combos))
+	for i := range combos {
+		outs[i].seed = c.Rng.Int63n(1 << 40)
+	}
+	sem := make(chan struct{}, 4)
+	var wg sync.WaitGroup
+	for i, cb := range combos {
+		wg.Add(1)
+		go func(i int, cb c17Combo) {
+			defer wg.Done()
+			sem <- struct{}{}
+			defer func() { <-sem }()
+			outs[i].out, outs[i].rc, outs[i].err = c17RunChild(bin, 300*time.Second, c17WorkerArgs(cb, outs[i].seed)...)
+		}(i, cb)
+	}
+	wg.Wait()
+	for i, cb := range combos {
+		if outs[i].err != nil {
+			c.Rep.Extra[how+"_binary_error"] = outs[i].err.Error()
+			break
+		}
+		runs++
+		c17Account(c, cb, outs[i].seed, how, outs[i].out, outs[i].rc)
+	}
+	return runs
+}
+
+func runC17(c *Ctx) {
+	c.Rep.Rule = "workloads: (mode in separate|fresh|shared|shared-cold|caches|sessions-{one,children-after,children-during,chain}) x goroutine counts x GOMAXPROCS values, " +
+		"each in a process of its own (plain build and race-detector build); every call of every goroutine is one evaluation, " +
+		"compared with the same call run alone on new instances; a call is non-trivial when its item has a struct/container type that the package-level root sessions do not hold " +
+		"(so the per-session cache is cold on first use); documents to unmarshal carry keys in every accepted spelling and numbers in every source form; " +
+		"distinct = distinct (mode, goroutines, gomaxprocs, seed, call). Scenarios: sequences and concurrent groups of " +
+		"GetIteratorForType/GetBuilderGeneratorForType + use on one new session, including unsupported element kinds (chan, func, complex) and recursive types; " +
+		"each scenario is one Coq case (model must predict ok/error/never-returns and placeholder-or-generated exactly for sequences, and reach the observed outcome under some schedule for concurrent groups)"
+	self, err := os.Executable()
+	if err != nil {
+		panic(err)
+	}
+
+	// ---- 1. workloads in worker processes of the plain build (no race detector): every result against the
+	// run-alone result; a process that dies of a runtime fatal error is a failure
+	combos := []c17Combo{}
+	nItems, callsPer := c.Pick(24, 40), c.Pick(24, 80)
+	for _, mode := range append(append([]string{}, c17Modes...), "caches") {
+		for _, gp := range [][2]int{{2, 1}, {4, 2}, {8, 4}, {16, 8}, {32, 16}} {
+			combos = append(combos, c17Combo{gp[0], gp[1], mode, nItems, callsPer})
+		}
+	}
+	for _, topo := range c17Topologies {
+		for _, gp := range [][2]int{{3, 2}, {8, 4}, {4, 4}, {16, 8}, {32, 16}} {
+			combos = append(combos, c17Combo{gp[0], gp[1], "sessions-" + topo, c.Pick(3, 6), c.Pick(40, 120)})
+		}
+	}
+	allCombos := combos
 	if !c.Thorough() {
 		// quick: one small and one large combination per mode
-		keep := []combo{}
+		keep := []c17Combo{}
 		for i, cb := range combos {
 			if i%5 == 1 || i%5 == 3 {
 				keep = append(keep, cb)
@@ -1415,26 +2414,7 @@ func runC17(c *Ctx) {
 		}
 		combos = keep
 	}
-	nItems, callsPer := c.Pick(16, 32), c.Pick(24, 80)
-	for _, cb := range combos {
-		seed := c.Rng.Int63n(1 << 40)
-		var rep c17WorkloadReport
-		if cb.mode == "caches" {
-			rep = c17CacheStorm(seed, cb.g, cb.procs)
-		} else {
-			rep = c17RunWorkload(seed, cb.g, cb.procs, cb.mode, nItems, callsPer)
-		}
-		for op, n := range rep.OpsCount {
-			c.Rep.Distribution["inprocess/"+cb.mode+"/"+op] += n
-		}
-		for i := 0; i < rep.Calls; i++ {
-			c.Count(fmt.Sprintf("%s/%d/%d/%d/%d", cb.mode, cb.g, cb.procs, seed, i), true)
-		}
-		c.Dist(fmt.Sprintf("inprocess/%s/g=%d/procs=%d", cb.mode, cb.g, cb.procs))
-		c.Sample(map[string]string{"where": "in-process", "mode": cb.mode, "goroutines": fmt.Sprint(cb.g), "gomaxprocs": fmt.Sprint(cb.procs),
-			"seed": fmt.Sprint(seed), "calls": fmt.Sprint(rep.Calls), "mismatches": fmt.Sprint(len(rep.Mismatches))})
-		c17FailMismatches(c, rep, "in-process")
-	}
+	c.Rep.Extra["plain_worker_runs"] = c17RunCombos(c, self, "child-process", combos)
 
 	// ---- 2. the same workloads inside the race-detector build
 	raceBin := os.Getenv("VERIF_VH_RACE")
@@ -1448,7 +2428,7 @@ func runC17(c *Ctx) {
 	}
 	if raceBin != "" {
 		// is the detector really on in that binary?
-		out, _, err := c17RunRaceBinary(raceBin, 1, 2, 2, "selftest-race", 0, 0)
+		out, _, err := c17RunChild(raceBin, 120*time.Second, "c17worker", "1", "2", "2", "selftest-race", "0", "0")
 		selfOK := err == nil && strings.Contains(out, "WARNING: DATA RACE")
 		c.Rep.Extra["race_detector_selftest_reports_seeded_race"] = selfOK
 		if !selfOK {
@@ -1457,80 +2437,87 @@ func runC17(c *Ctx) {
 		}
 	}
 	if raceBin != "" {
-		rcombos := []combo{{8, 4, "separate"}, {8, 2, "shared"}, {16, 8, "shared-cold"}, {16, 8, "caches"}}
+		rcombos := []c17Combo{{8, 4, "separate", 14, 12}, {8, 4, "fresh", 14, 12}, {8, 4, "conversions", 16, 24}, {8, 2, "shared", 14, 12}, {16, 8, "shared-cold", 14, 12}, {16, 8, "caches", 0, 0},
+			{8, 4, "sessions-one", 2, 24}, {6, 4, "sessions-children-after", 2, 24}, {8, 8, "sessions-children-during", 2, 24}, {6, 2, "sessions-chain", 2, 24}}
 		if c.Thorough() {
-			rcombos = combos
-		}
-		type raceOut struct {
-			seed int64
-			out  string
-			rc   int
-			err  error
-		}
-		outs := make([]raceOut, len(rcombos))
-		for i := range rcombos {
-			outs[i].seed = c.Rng.Int63n(1 << 40)
-		}
-		sem := make(chan struct{}, 4) // at most 4 worker processes at a time
-		var wg sync.WaitGroup
-		for i, cb := range rcombos {
-			wg.Add(1)
-			go func(i int, cb combo) {
-				defer wg.Done()
-				sem <- struct{}{}
-				defer func() { <-sem }()
-				outs[i].out, outs[i].rc, outs[i].err = c17RunRaceBinary(raceBin, outs[i].seed, cb.g, cb.procs, cb.mode, c.Pick(8, 24), c.Pick(10, 40))
-			}(i, cb)
-		}
-		wg.Wait()
-		for i, cb := range rcombos {
-			seed, out, rc, err := outs[i].seed, outs[i].out, outs[i].rc, outs[i].err
-			if err != nil {
-				c.Rep.Extra["race_binary_error"] = err.Error()
-				break
-			}
-			raceRuns++
-			c.Dist(fmt.Sprintf("race-build/%s/g=%d/procs=%d", cb.mode, cb.g, cb.procs))
-			input := map[string]string{"seed": fmt.Sprint(seed), "goroutines": fmt.Sprint(cb.g), "gomaxprocs": fmt.Sprint(cb.procs), "mode": cb.mode, "how": "race-build",
-				"items": fmt.Sprint(c.Pick(8, 24)), "calls": fmt.Sprint(c.Pick(10, 40))}
-			nRaces := strings.Count(out, "WARNING: DATA RACE")
-			if nRaces > 0 {
-				c.Fail(Replay{Kind: "race", Key: "C17/data-race/" + cb.mode + "/" + c17RaceSite(out), Input: input,
-					Expect: "no data race report", Got: fmt.Sprintf("%d reports; first: %s", nRaces, c17FirstRace(out))})
-			}
-			var rep c17WorkloadReport
-			parsed := false
-			for _, line := range strings.Split(out, "\n") {
-				if strings.HasPrefix(line, "{") && json.Unmarshal([]byte(line), &rep) == nil {
-					parsed = true
+			rcombos = []c17Combo{}
+			for _, cb := range allCombos {
+				if strings.HasPrefix(cb.mode, "sessions-") {
+					cb.a, cb.b = 3, 60
+				} else {
+					cb.a, cb.b = 24, 40
 				}
-			}
-			if parsed {
-				for k := 0; k < rep.Calls; k++ {
-					c.Count(fmt.Sprintf("race/%s/%d/%d/%d/%d", cb.mode, cb.g, cb.procs, seed, k), true)
-				}
-				for op, n := range rep.OpsCount {
-					c.Rep.Distribution["race-build/"+cb.mode+"/"+op] += n
-				}
-				c17FailMismatches(c, rep, "race-build")
-			}
-			if (rc != 0 && rc != 3 && rc != 4 && !(rc == 66 && nRaces > 0)) || !parsed {
-				tail := out
-				if len(tail) > 800 {
-					tail = tail[len(tail)-800:]
-				}
-				c.Fail(Replay{Kind: "race", Key: "C17/worker-died/" + cb.mode, Input: input, Expect: "exit 0", Got: fmt.Sprintf("exit %d: %s", rc, tail)})
+				rcombos = append(rcombos, cb)
 			}
 		}
+		raceRuns = c17RunCombos(c, raceBin, "race-build", rcombos)
 	}
 	c.Rep.Extra["race_detector_runs"] = raceRuns
 	c.Rep.Extra["race_detector_used"] = raceRuns > 0
+
+	// ---- 3. scenarios on the caches, mirrored by the Coq model: in a process of their own as well (they run groups
+	// of goroutines on one session); that process writes the case files and its part of the report
+	part := filepath.Join(c.Out, "c17_scenarios.json")
+	os.Remove(part)
+	out, rc, err := c17RunChild(self, time.Duration(c.Pick(800, 3000))*time.Second, "c17scenarios", c.Tier, fmt.Sprint(c.Seed), c.Out)
+	var sub Report
+	b, rerr := ioutil.ReadFile(part)
+	if err == nil && rc == 0 && rerr == nil && json.Unmarshal(b, &sub) == nil {
+		c.Rep.Evaluations += sub.Evaluations
+		c.Rep.Distinct += sub.Distinct
+		for k, n := range sub.Distribution {
+			if !strings.HasPrefix(k, "fail:") {
+				c.Rep.Distribution[k] += n
+			}
+		}
+		for _, f := range sub.Failures {
+			c.Rep.Failures = append(c.Rep.Failures, f)
+			c.failed[f.Key] = sub.Distribution["fail:"+f.Key]
+		}
+		c.Rep.CaseFiles = append(c.Rep.CaseFiles, sub.CaseFiles...)
+		c.Rep.CaseCount += sub.CaseCount
+		if hs, ok := sub.Extra["calls_that_do_not_return_even_alone_excluded"].([]interface{}); ok {
+			for _, h := range hs {
+				c17AloneHangs = append(c17AloneHangs, fmt.Sprint(h))
+			}
+		}
+	} else {
+		tail := out
+		if i := strings.Index(out, "fatal error: "); i >= 0 {
+			tail = out[i:]
+		}
+		if len(tail) > 1500 {
+			tail = tail[:1500]
+		}
+		c.Fail(Replay{Kind: "scenario-process", Key: c17CrashKey("scenarios", out, rc), Input: map[string]string{"tier": c.Tier, "seed": fmt.Sprint(c.Seed)},
+			Expect: "the scenario process runs all scenarios and exits with 0", Got: fmt.Sprintf("exit %d (%v): %s", rc, err, tail)})
+	}
+	os.Remove(part)
 	if len(c17AloneHangs) > 0 {
 		c.Rep.Extra["calls_that_do_not_return_even_alone_excluded"] = c17AloneHangs
 	}
+}
 
-	// ---- 3. scenarios on the caches, mirrored by the Coq model
-	c17Scenarios(c, cf)
+// c17ScenariosMain: `vh c17scenarios <tier> <seed> <outdir>` — part 3 of the check as a process of its own.
+// It leaves the case files in outdir and its part of the report in outdir/c17_scenarios.json.
+func c17ScenariosMain(args []string) int {
+	if len(args) != 3 {
+		fmt.Fprintln(os.Stderr, "usage: vh c17scenarios <tier> <seed> <outdir>")
+		return 2
+	}
+	seed, _ := strconv.ParseInt(args[1], 10, 64)
+	c := newCtx("C17", args[0], seed, args[2])
+	c.Rng = rand.New(rand.NewSource(seed*7919 + 17))
+	c17Scenarios(c, c.Cases("cache", "CE.Model.Cache", "cache_case", "cache_case_ok"))
+	if len(c17AloneHangs) > 0 {
+		c.Rep.Extra["calls_that_do_not_return_even_alone_excluded"] = c17AloneHangs
+	}
+	c.finish()
+	if err := os.Rename(filepath.Join(c.Out, "report.json"), filepath.Join(c.Out, "c17_scenarios.json")); err != nil {
+		fmt.Fprintln(os.Stderr, err)
+		return 1
+	}
+	return 0
 }
 
 func c17RaceSite(out string) string {
@@ -1575,11 +2562,33 @@ func c17Scenarios(c *Ctx, cf *caseFile) {
 	good := append([]reflect.Type{}, c17StaticTypes...)
 	good = append(good, c17DynTypes(r, c.Pick(12, 40), fmt.Sprintf("sc-%d", c.Seed))...)
 	pickCall := func(pool []reflect.Type, full bool) c17ScCall {
-		t := pool[r.Intn(len(pool))]
-		if full {
-			return c17ScCall{Typ: t, Val: c17Full(t, 3)}
+		var call c17ScCall
+		for try := 0; try < 10; try++ {
+			t := pool[r.Intn(len(pool))]
+			if try == 9 {
+				t = c17StaticTypes[r.Intn(len(c17StaticTypes))]
+			}
+			spell := int64(0)
+			if r.Intn(2) == 0 {
+				spell = 1 + r.Int63n(1<<40)
+			}
+			if full {
+				call = c17ScCall{Typ: t, Val: c17Full(t, 3), Spell: spell}
+			} else {
+				call = c17ScCall{Typ: t, Val: c17Filled(r, t, 3), Spell: spell}
+			}
+			// types made at run time nest each other: now and then a value is huge (a Coq term of several hundred
+			// kilobytes for one call). Such a call is drawn again: the case files stay small enough to be evaluated in seconds.
+			big := false
+			for _, side := range []string{"iter", "build"} {
+				tt := &c17TypeTable{side: side, ids: map[reflect.Type]int{}}
+				big = big || len(c17JobsCoq(tt, []c17ScCall{call}))+len(tt.coq()) > 12000
+			}
+			if !big {
+				break
+			}
 		}
-		return c17ScCall{Typ: t, Val: c17Filled(r, t, 3)}
+		return call
 	}
 	check := func(side, label string, calls []c17ScCall, obs []c17Obs, conc bool) {
 		for i, o := range obs {
@@ -1632,11 +2641,11 @@ func c17Scenarios(c *Ctx, cf *caseFile) {
 				var calls []c17ScCall
 				switch variant {
 				case 0: // the same call twice
-					calls = []c17ScCall{{bt, c17Full(bt, 3)}, {bt, c17Full(bt, 3)}}
+					calls = []c17ScCall{{Typ: bt, Val: c17Full(bt, 3)}, {Typ: bt, Val: c17Full(bt, 3)}}
 				case 1: // a supported call in between and a holder of the bad type after
-					calls = []c17ScCall{{bt, c17Full(bt, 3)}, pickCall(good, false), {reflect.PtrTo(bt), c17Full(reflect.PtrTo(bt), 3)}, {reflect.SliceOf(bt), reflect.New(reflect.SliceOf(bt)).Elem()}}
+					calls = []c17ScCall{{Typ: bt, Val: c17Full(bt, 3)}, pickCall(good, false), {Typ: reflect.PtrTo(bt), Val: c17Full(reflect.PtrTo(bt), 3)}, {Typ: reflect.SliceOf(bt), Val: reflect.New(reflect.SliceOf(bt)).Elem()}}
 				case 2: // holder first (empty value: nothing of the bad type is visited), then the bad type
-					calls = []c17ScCall{{reflect.SliceOf(bt), reflect.New(reflect.SliceOf(bt)).Elem()}, {bt, c17Full(bt, 3)}, {reflect.SliceOf(bt), c17Full(reflect.SliceOf(bt), 2)}}
+					calls = []c17ScCall{{Typ: reflect.SliceOf(bt), Val: reflect.New(reflect.SliceOf(bt)).Elem()}, {Typ: bt, Val: c17Full(bt, 3)}, {Typ: reflect.SliceOf(bt), Val: c17Full(reflect.SliceOf(bt), 2)}}
 				}
 				label := fmt.Sprintf("bad-%d", bn)
 				bn++
@@ -1651,11 +2660,11 @@ func c17Scenarios(c *Ctx, cf *caseFile) {
 				var calls []c17ScCall
 				switch variant {
 				case 0:
-					calls = []c17ScCall{{rb, c17Full(rb, 0)}, {rb2, reflect.New(rb2).Elem()}, {rb2, c17Full(rb2, 2)}, {rb, c17Full(rb, 0)}}
+					calls = []c17ScCall{{Typ: rb, Val: c17Full(rb, 0)}, {Typ: rb2, Val: reflect.New(rb2).Elem()}, {Typ: rb2, Val: c17Full(rb2, 2)}, {Typ: rb, Val: c17Full(rb, 0)}}
 				case 1:
-					calls = []c17ScCall{{rb2, reflect.New(rb2).Elem()}, {rb2, reflect.New(rb2).Elem()}, {rb, c17Full(rb, 0)}}
+					calls = []c17ScCall{{Typ: rb2, Val: reflect.New(rb2).Elem()}, {Typ: rb2, Val: reflect.New(rb2).Elem()}, {Typ: rb, Val: c17Full(rb, 0)}}
 				case 2:
-					calls = []c17ScCall{{rb, c17Full(rb, 0)}, {reflect.PtrTo(rb2), c17Full(reflect.PtrTo(rb2), 1)}, {reflect.SliceOf(rb), reflect.New(reflect.SliceOf(rb)).Elem()}}
+					calls = []c17ScCall{{Typ: rb, Val: c17Full(rb, 0)}, {Typ: reflect.PtrTo(rb2), Val: c17Full(reflect.PtrTo(rb2), 1)}, {Typ: reflect.SliceOf(rb), Val: reflect.New(reflect.SliceOf(rb)).Elem()}}
 				}
 				label := fmt.Sprintf("recbad-%d", variant)
 				check(side, label, calls, c17SeqScenario(c, cf, side, calls, label), false)
@@ -1700,11 +2709,11 @@ func c17Scenarios(c *Ctx, cf *caseFile) {
 		// (d) concurrent groups racing on an unsupported type
 		for n := 0; n < c.Pick(6, 40); n++ {
 			bt := c17BadTypes[r.Intn(5)]
-			threads := [][]c17ScCall{{{bt, c17Full(bt, 3)}}, {{bt, c17Full(bt, 3)}}}
+			threads := [][]c17ScCall{{{Typ: bt, Val: c17Full(bt, 3)}}, {{Typ: bt, Val: c17Full(bt, 3)}}}
 			if n%3 == 2 {
 				// the other goroutine asks for a holder of the unsupported type with an empty value
 				bt = c17BadTypes[r.Intn(3)]
-				threads = [][]c17ScCall{{{bt, c17Full(bt, 3)}}, {{reflect.SliceOf(bt), reflect.New(reflect.SliceOf(bt)).Elem()}}}
+				threads = [][]c17ScCall{{{Typ: bt, Val: c17Full(bt, 3)}}, {{Typ: reflect.SliceOf(bt), Val: reflect.New(reflect.SliceOf(bt)).Elem()}}}
 			}
 			label := fmt.Sprintf("conc-bad-%d", n)
 			obs := c17ConcScenario(c, cf, side, threads, []int{1, 2, 4}[r.Intn(3)], label)
@@ -1775,31 +2784,59 @@ func replayC17(r *Replay) (bool, string) {
 	atoi := func(k string) int { n, _ := strconv.Atoi(r.Input[k]); return n }
 	switch r.Kind {
 	case "workload", "race":
+		// the same worker process again (schedules vary between runs: a pass does not show that the failure is gone)
 		seed, _ := strconv.ParseInt(r.Input["seed"], 10, 64)
-		if bin := os.Getenv("VERIF_VH_RACE"); bin != "" && r.Input["how"] == "race-build" {
-			items, calls := atoi("items"), atoi("calls")
-			if items == 0 {
-				items, calls = 10, 12
-			}
-			out, rc, err := c17RunRaceBinary(bin, seed, atoi("goroutines"), atoi("gomaxprocs"), r.Input["mode"], items, calls)
-			if err != nil {
-				return false, "cannot run race build: " + err.Error()
-			}
-			n := strings.Count(out, "WARNING: DATA RACE")
-			return rc == 0 && n == 0, fmt.Sprintf("race build exit %d, %d data race reports", rc, n)
+		bin, err := os.Executable()
+		if err != nil {
+			return false, err.Error()
 		}
+		if r.Input["how"] == "race-build" {
+			if bin = os.Getenv("VERIF_VH_RACE"); bin == "" {
+				return false, "VERIF_VH_RACE (path of the race-detector build of vh) is not set"
+			}
+		}
+		items, calls := atoi("items"), atoi("calls")
+		if items == 0 && r.Input["mode"] != "caches" {
+			items, calls = 16, 24
+		}
+		out, rc, err := c17RunChild(bin, 300*time.Second, c17WorkerArgs(c17Combo{atoi("goroutines"), atoi("gomaxprocs"), r.Input["mode"], items, calls}, seed)...)
+		if err != nil {
+			return false, "cannot run " + bin + ": " + err.Error()
+		}
+		n := strings.Count(out, "WARNING: DATA RACE")
 		var rep c17WorkloadReport
-		if r.Input["mode"] == "caches" {
-			rep = c17CacheStorm(seed, atoi("goroutines"), atoi("gomaxprocs"))
-		} else {
-			rep = c17RunWorkload(seed, atoi("goroutines"), atoi("gomaxprocs"), r.Input["mode"], 16, 24)
+		for _, line := range strings.Split(out, "\n") {
+			if strings.HasPrefix(line, "{") {
+				json.Unmarshal([]byte(line), &rep)
+			}
 		}
 		keys := []string{}
 		for _, m := range rep.Mismatches {
 			keys = append(keys, m.Op+" "+m.Type)
 		}
 		sort.Strings(keys)
-		return len(rep.Mismatches) == 0 && !rep.Hung, fmt.Sprintf("in-process rerun: %d calls, %d results differ from run-alone %v, hung=%v (schedules vary between runs)", rep.Calls, len(rep.Mismatches), keys, rep.Hung)
+		how := ""
+		if rc != 0 && rc != 3 && rc != 4 && rc != 66 {
+			how = " (" + c17CrashKey(r.Input["mode"], out, rc) + ")"
+		}
+		return rc == 0 && n == 0, fmt.Sprintf("worker process (%s) exit %d%s, %d data race reports, %d calls, %d results differ from run-alone %v, hung=%v",
+			r.Input["how"], rc, how, n, rep.Calls, len(rep.Mismatches), keys, rep.Hung)
+	case "scenario-process":
+		bin, err := os.Executable()
+		if err != nil {
+			return false, err.Error()
+		}
+		dir, err := ioutil.TempDir("", "c17replay")
+		if err != nil {
+			return false, err.Error()
+		}
+		defer os.RemoveAll(dir)
+		out, rc, _ := c17RunChild(bin, 3000*time.Second, "c17scenarios", r.Input["tier"], r.Input["seed"], dir)
+		how := ""
+		if rc != 0 {
+			how = " (" + c17CrashKey("scenarios", out, rc) + ")"
+		}
+		return rc == 0, fmt.Sprintf("scenario process exit %d%s", rc, how)
 	case "scenario":
 		// the recorded class of failure: a call on a type whose first use failed. Re-run the minimal form: the same call twice on one session.
 		t, ok := c17TypeByName(r.Input["type"])
@@ -1814,8 +2851,8 @@ func replayC17(r *Replay) (bool, string) {
 		if a, ok := c17TypeByName(r.Input["after"]); ok {
 			first = a
 		}
-		call1 := c17ScCall{first, c17Full(first, 3)}
-		call2 := c17ScCall{t, c17Full(t, 3)}
+		call1 := c17ScCall{Typ: first, Val: c17Full(first, 3)}
+		call2 := c17ScCall{Typ: t, Val: c17Full(t, 3)}
 		if r.Input["empty_value"] == "true" {
 			call2.Val = reflect.New(t).Elem()
 		}
